@@ -106,3 +106,59 @@ func Close(fd int) error { return errOf(world().K.Close(fd)) }
 func SetNonblock(fd int, nonblocking bool) error {
 	return errOf(world().K.SetNonblock(fd, nonblocking))
 }
+
+// Poll: poll(2) over simulated descriptors (the connect path waits for
+// writability with it).
+func Poll(fds []real.PollFd, timeout int) (int, error) {
+	var rl, wl []int
+	for i := range fds {
+		fds[i].Revents = 0
+		if fds[i].Fd < 0 {
+			continue
+		}
+		if fds[i].Events&real.POLLIN != 0 {
+			rl = append(rl, int(fds[i].Fd))
+		}
+		if fds[i].Events&real.POLLOUT != 0 {
+			wl = append(wl, int(fds[i].Fd))
+		}
+	}
+	tmo := int64(-1)
+	if timeout >= 0 {
+		tmo = int64(timeout) * 1_000_000
+	}
+	rr, wr, errno := world().K.Select(rl, wl, tmo)
+	if errno != 0 {
+		if errno == syscall.EBADF {
+			// poll reports a closed number in revents, not as an error
+			n := 0
+			for i := range fds {
+				if fds[i].Fd >= 0 && world().K.KindOf(int(fds[i].Fd)) == "" {
+					fds[i].Revents = real.POLLNVAL
+					n++
+				}
+			}
+			if n > 0 {
+				return n, nil
+			}
+		}
+		return -1, errno
+	}
+	n := 0
+	for i := range fds {
+		for _, fd := range rr {
+			if int(fds[i].Fd) == fd {
+				fds[i].Revents |= real.POLLIN
+			}
+		}
+		for _, fd := range wr {
+			if int(fds[i].Fd) == fd {
+				fds[i].Revents |= real.POLLOUT
+			}
+		}
+		if fds[i].Revents != 0 {
+			n++
+		}
+	}
+	return n, nil
+}
